@@ -11,6 +11,11 @@ from engine.symex import Unsupported
 float32 = _np.float32
 float64 = _np.float64
 int32 = _np.int32
+uint8 = _np.uint8
+int8 = _np.int8
+int16 = _np.int16
+uint16 = _np.uint16
+uint32 = _np.uint32
 int64 = _np.int64
 bool_ = _np.bool_
 inf = _np.inf
@@ -328,7 +333,8 @@ def _full(shape, v):
 def zeros(shape, dtype=None):
   if dtype in (bool, bool_):
     return _full(shape, False)
-  return _full(shape, 0 if dtype in (int32, int64, int) else 0.0)
+  return _full(shape, 0 if dtype in (int32, int64, int, uint8, int8, int16,
+                                     uint16, uint32) else 0.0)
 
 
 def ones(shape, dtype=None):
